@@ -195,13 +195,14 @@ def storeMinimize (f : AggFun) (restVars : List Term) (maxVar : String) (newName
 /-! ## `_chain_translation` -/
 
 /-- the partition of the body: (lits_with_vars, lits_without_vars, rest_vars) -/
-def splitBody (agg : BLit) (inside : VSet) : List BLit → List BLit × List BLit × VSet
+def splitBody (agg : BLit) (inside gv : VSet) : List BLit → List BLit × List BLit × VSet
   | [] => ([], [], [])
   | b :: bs =>
-    let (w, wo, rv) := splitBody agg inside bs
+    let (w, wo, rv) := splitBody agg inside gv bs
     if SumAgg.stripBLit b == SumAgg.stripBLit agg then (w, wo, rv)
     else
-      let bv := vOfList b.vars
+      -- fix (known_findings.json `fixed:`): only the global variables of the literal
+      let bv := vInter (vOfList b.vars) gv
       if !(vInter bv inside).isEmpty then (b :: w, wo, vUnion bv rv) else (w, b :: wo, rv)
 
 /-- `_create_aggregate_replacement(agg, elem, rest_vars, new_predicate, lits_with_vars)` -/
@@ -267,7 +268,8 @@ def chainTranslation (prg : Prog) (stm : Stm) (agg : AggLit) : M (List Stm) :=
       let newName := "__" ++ (if isMax then "max" else "min") ++ "_0_" ++ toString (stmLine stm)
       let newPred : Pred := ⟨newName, 1⟩
       let inside := vOfList ((bElemsTerms agg.elems).flatMap Term.vars)
-      let (litsWith, litsWithout, rv) := splitBody agg.blit inside stm.body
+      let gv ← globalVarsInsideBody stm.body
+      let (litsWith, litsWithout, rv) := splitBody agg.blit inside gv stm.body
       let rv := match stm with
         | .minimize _ _ w p ts _ =>
           ts.foldl (fun acc t => vUnion acc (vInter inside t.vars)) (vUnion (vUnion rv (vInter inside w.vars)) (vInter inside p.vars))
